@@ -369,6 +369,10 @@ def _main(prop, args, seed, t0, workdir, logdir):
     uniq = {}
     for s, p in violations:
         uniq.setdefault(s, p)
+    if UNATTRIBUTED and not uniq:
+        raise HarnessFailure("; ".join(UNATTRIBUTED))
+    for msg in UNATTRIBUTED:
+        log(f"[{prop}] note: {msg}")
     wall = round(time.time() - t0, 2)
     ev = {
         "property_id": prop, "tier": tier, "seed": seed, "level": "exploration",
@@ -402,6 +406,9 @@ def _main(prop, args, seed, t0, workdir, logdir):
     return 1 if uniq else 0
 
 
+UNATTRIBUTED = []
+
+
 def handle_death(prop, w, job, tier, seed, workdir, logdir, violations):
     """A worker vanished.  Attribute the death to a case if it reproduces, else to the shard, else harness error."""
     name = w.death_name()
@@ -423,8 +430,14 @@ def handle_death(prop, w, job, tier, seed, workdir, logdir, violations):
              "detail": {"first_death": name, "log": w2.logfile}}
         violations.append((v["signature"], write_violation(prop, seed, v)))
         return None
-    raise HarnessFailure(f"worker {w.tag} died ({name}) but neither the last case nor the shard reproduces it "
-                         f"(log {w.logfile})")
+    # An unreproducible death cannot be attributed to the property.  It does not invalidate what the other shards
+    # found: the caller reports their violations and turns this into a harness error only if there are none.
+    UNATTRIBUTED.append(f"worker {w.tag} died ({name}) but neither the last case nor the shard reproduces it "
+                        f"(log {w.logfile})")
+    if w2.result and w2.result.get("ok"):
+        w2.result["_hashes"] = w2.hashes
+        return w2.result
+    return None
 
 
 if __name__ == "__main__":
